@@ -130,7 +130,7 @@ func c37CheckWorld(c *core.Ctx, w b6.World, kind string, witness any) {
 }
 
 var c37Injections = []string{"path-1pt", "path-missing-point", "closed-clockwise", "closed-bowtie", "closed-2-distinct", "area-missing-path",
-	"area-open-path", "area-of-invalid-path", "area-of-clockwise-path", "path-all-missing", "area-open-latlng-path", "area-closed-latlng-path", "areas-before-shared-ring"}
+	"area-open-path", "area-of-invalid-path", "area-of-clockwise-path", "path-all-missing", "area-open-latlng-path", "area-closed-latlng-path", "areas-before-shared-ring", "long-path-late-missing-point"}
 
 func init() {
 	var required []string
@@ -142,7 +142,7 @@ func init() {
 		ID:        "C37",
 		Title:     "Every feature in a world is valid",
 		Technique: "invariant walk: every feature enumerated from built and edited worlds is re-validated by an independent validity predicate",
-		Rule: "case = (world kind basic builder / compact builder / basic-mutable / mutable-overlay, a valid generated feature set plus 1-4 injected features of 13 kinds (11 invalid, one valid control: an area over a path closed by lat/lng literals, and three areas over one ring that reach the builder before the ring, the middle one invalid), " +
+		Rule: "case = (world kind basic builder / compact builder / basic-mutable / mutable-overlay, a valid generated feature set plus 1-4 injected features of 14 kinds (among them an open path of 65-140 points whose only missing point lies beyond index 64) (11 invalid, one valid control: an area over a path closed by lat/lng literals, and three areas over one ring that reach the builder before the ring, the middle one invalid), " +
 			"and, in one case of five, a burst of 101-180 further invalid paths and areas, in source order or shuffled; for mutable kinds the invalid features arrive as AddFeature calls inside an edit history); distinct = kind + features + injections; " +
 			"non-trivial = at least one injected feature was dropped or rejected",
 		Assumptions: []string{"golang/geo Loop.Validate and Loop.Area decide loop validity and orientation", "clockwise closed paths may be inverted by builders (then they must be counter-clockwise in the world)"},
@@ -249,6 +249,20 @@ func init() {
 						injected = append(injected, p, a)
 						invalidIDs = append(invalidIDs, a.ID)
 					}
+				case "long-path-late-missing-point":
+					// an open path of 65-140 points (walking to and fro over the world's points) whose only
+					// missing point comes late: beyond any fixed-size bookkeeping of "which points were bad"
+					if len(pts) < 2 {
+						continue
+					}
+					n := r.Range(65, 140)
+					p := &wm.Spec{ID: g.NewID(b6.FeatureTypePath, b6.NamespaceOSMWay), Tags: g.RandomTags(1)}
+					for k := 0; k < n; k++ {
+						p.Path = append(p.Path, wm.Elem{Ref: pts[k%len(pts)].ID})
+					}
+					p.Path[r.Range(64, n-1)] = wm.Elem{Ref: absentPoint}
+					injected = append(injected, p)
+					invalidIDs = append(invalidIDs, p.ID)
 				case "areas-before-shared-ring":
 					// three areas over one valid ring, delivered before the ring: the first and the last
 					// are valid, the middle one also has a polygon over a path that is missing (or open)
